@@ -361,6 +361,10 @@ func SetField(obj any, field string, v any) {
 	p.Set(reflect.ValueOf(v).Convert(f.Type()))
 }
 
+// Len / Index: length and element of a slice value of an unexported element type.
+func Len(s any) int          { return reflect.ValueOf(s).Len() }
+func Index(s any, i int) any { return reflect.ValueOf(s).Index(i).Interface() }
+
 // NumFields is the number of fields of the struct *obj (harnesses that build
 // representation states directly use it to notice a changed representation).
 func NumFields(obj any) int { return reflect.ValueOf(obj).Elem().NumField() }
@@ -377,11 +381,23 @@ func Stub(name string, fn any) {}
 
 var epoch = time.Date(2000, 1, 1, 0, 0, 0, 0, time.UTC)
 
+// dayShift aligns the model's symbolic "today" (assignment key "now") with the
+// real clock, which a native run cannot set: all dates move by the same amount,
+// so every comparison with time.Now() comes out as in the model.
+func dayShift() int {
+	v, ok := lookup("now")
+	if !ok || RandomSeed != 0 {
+		return 0
+	}
+	today := int(time.Now().UTC().Sub(epoch).Hours() / 24)
+	return today - int(parseInt(v, 64))
+}
+
 // Day is the whole-day UTC date number n (days since 2000-01-01).
-func Day(n int) time.Time { return epoch.AddDate(0, 0, n) }
+func Day(n int) time.Time { return epoch.AddDate(0, 0, n+dayShift()) }
 
 // DayOf is the inverse of Day.
-func DayOf(t time.Time) int { return int(math.Round(t.Sub(epoch).Hours() / 24)) }
+func DayOf(t time.Time) int { return int(math.Round(t.Sub(epoch).Hours()/24)) - dayShift() }
 
 var tempDirs []string
 
